@@ -1,5 +1,5 @@
 import Model.Style
-import Generated.GoCode
+import Generated.GoStyle
 import Proofs.Gen16
 
 /-
